@@ -1,7 +1,7 @@
 """C08 - searching a list returns exactly the entries that glob-match the search"""
-from ..rules import exc, search, forward, mutation
+from ..rules import config, exc, search, forward, mutation
 
-DECIDES = ("glob2re: '*' becomes a class that excludes '/', other characters are escaped, flags lead, the end is anchored, used with re.match on every item (R-GLOBRE); each entry once (R-DEDUP), the list is re-iterable across unfolded forms (R-REITER); aliases are unfolded before searching, also for concrete Sids (R-UNFOLDALL); match = identity or found-in-a-singleton-list (R-MATCH); only SpilException escapes (R-EXC). Also: the bypass of unfolding is taken only for Sids that are no search and carry no alias (R-UNFOLDALL); the configuration routes by type alone (R-FINDERROUTE); no search alters the memoised unfolding it was handed, so that a later search of the same string sees the same forms (R-MUT).")
+DECIDES = ("glob2re: '*' becomes a class that excludes '/', other characters are escaped, flags lead, the end is anchored, used with re.match on every item (R-GLOBRE); each entry once (R-DEDUP), the list is re-iterable across unfolded forms (R-REITER); aliases are unfolded before searching, also for concrete Sids (R-UNFOLDALL); match = identity or found-in-a-singleton-list (R-MATCH); only SpilException escapes (R-EXC). Also: the bypass of unfolding is taken only for Sids that are no search and carry no alias (R-UNFOLDALL); the configuration routes by type alone (R-FINDERROUTE); no search alters the memoised unfolding it was handed, so that a later search of the same string sees the same forms (R-MUT). leaf_keys entries (R-LEAFKEYS); no removal from a list while iterating it (R-ITERMUT); Sid strings are not handled with pathlib / os.path (R-SIDNOTPATH).")
 DOES_NOT_DECIDE = 'which entries match (regular-expression evaluation)'
 
 
@@ -17,4 +17,7 @@ def rules(ctx, tier):
         lambda: search.rule_finderroute(ctx),
         lambda: forward.rule_fwd_assid(ctx),
         lambda: mutation.rule_mut(ctx),
+        lambda: config.rule_leafkeys(ctx),
+        lambda: search.rule_itermut(ctx),
+        lambda: search.rule_sidnotpath(ctx),
     ]
